@@ -259,7 +259,45 @@ def liveJudge (f : List String) (out : String) : String :=
               else "bad:unparsable:" ++ out
   | _, _ => "bad:unparsable:" ++ out
 
+/-- c18.bodiless: case = the c18.wrap fields + method; out = <gzip> TAB <plain> TAB <head> -/
+def showWire (head : Bool) (o : Obs) : String :=
+  let ce := if o.ce.isEmpty then "-" else Driver.hex o.ce
+  let cl := if head then "*" else (match o.cl with | .absent => "-" | _ => "+")
+  let bl := match o.body with
+    | .raw [] => "0"
+    | _ => "body"
+  s!"{o.status} {ce} {if o.varyAE then "1" else "0"} {showETag o.etag} {cl} {bl}"
+
+def bodilessModel (f : List String) : String :=
+  match f with
+  | [bl, p, ae, h, body, plen, ops, ret, method] =>
+    match parseWrap [bl, p, ae, h, body, plen, ops, ret] with
+    | none => "bad-case"
+    | some c =>
+      let head := method == "HEAD"
+      showWire head (observe (wire head (gzipRun c.blocks c.path c.ae c.inner))) ++ "\t" ++
+        showWire head (observe (wire head (plainRun c.inner))) ++ "\t" ++ (if head then "same" else "-")
+  | _ => "bad-case"
+
+def parseWire (s : String) : Option Obs :=
+  match s.splitOn " " with
+  | [st, ce, v, e, cl, bl] => do
+    let ce ← if ce = "-" then pure [] else Driver.unhex ce
+    let n ← bl.toNat?
+    pure { status := ← st.toNat?, ce := ce, cl := if cl = "+" then .ok else .absent, varyAE := v == "1",
+           etag := ← parseETag e, body := if n = 0 then .raw [] else .raw [0] }
+  | _ => none
+
+def bodilessJudge (f : List String) (out : String) : String :=
+  match f, out.splitOn "\t" with
+  | [_, _, ae, _, _, _, _, _, method], [g, p, hs] =>
+    match Driver.unhex ae, parseWire g, parseWire p with
+    | some ae, some g, some p => bodilessVerdict ae (method == "HEAD") g p (hs == "same" || hs == "-")
+    | _, _, _ => "bad:unparsable:" ++ out
+  | _, _ => "bad:unparsable:" ++ out
+
 def streams : List Driver.Stream := [
+  { name := "c18.bodiless", model := bodilessModel, judge := bodilessJudge },
   { name := "c18.live", model := liveModel, judge := liveJudge },
   { name := "c18.range", model := rangeModel, judge := rangeJudge },
   { name := "c18.wrap", model := wrapModel, judge := wrapJudge },
